@@ -1,24 +1,26 @@
 #!/bin/sh
-# t6_faithfulness.sh — for every stored seeded change: apply it to /repo, regenerate the T6 translation, and (when the
+# t6_faithfulness.sh — for every stored seeded change: apply it to a scratch worktree of /repo, regenerate the T6 translation, and (when the
 # translator accepts the changed source and the result still type-checks against DriverGen) run the property's
 # correspondence ops on the CHANGED library and on the CHANGED translation.  A faithful translator follows the source:
 # Go and Gen must agree on every op although both now differ from the hand-written model.  Informational (DESIGN §11).
 cd /verif || exit 2
 export GOFLAGS=-mod=mod GOPROXY=off GOSUMDB=off GOTOOLCHAIN=local
 out=${1:-/tmp/t6_faithfulness.txt}; : > "$out"
+wt=/tmp/t6wt; hs=/tmp/t6hs
+git -C /repo worktree remove --force $wt 2>/dev/null; git -C /repo worktree add -q --detach $wt HEAD || exit 2
+rm -rf $hs; cp -r harness $hs; sed -i "s#=> /repo#=> $wt#" $hs/go.mod
 for d in seeded/*/; do
   id=$(basename "$d"); prop=$(python3 -c "import json;print(json.load(open('$d/meta.json'))['breaks_property'])")
-  [ -n "$(git -C /repo status --porcelain)" ] && { echo "repo not clean"; exit 2; }
-  git -C /repo apply "/verif/$d/patch.diff" || { echo "$id patch-failed" >> "$out"; continue; }
-  if ! msg=$(.build/gen_go /repo lean/I3/Gen 2>&1); then
+  git -C $wt apply "/verif/$d/patch.diff" || { echo "$id patch-failed" >> "$out"; continue; }
+  if ! msg=$(.build/gen_go $wt lean/I3/Gen 2>&1); then
     echo "$id $prop fail-closed: $(echo "$msg" | head -1 | cut -c1-160)" >> "$out"
   else
     # the other translators too (T1/T2 feed GoExt)
-    for t in gen_tables gen_limbs; do .build/$t /repo lean/I3/Gen >/dev/null 2>&1; done
+    for t in gen_tables gen_limbs; do .build/$t $wt lean/I3/Gen >/dev/null 2>&1; done
     if ! (cd lean && timeout 900 lake build drivergen >/dev/null 2>&1); then
       echo "$id $prop generated-code-no-longer-fits-DriverGen (signature or callee changed)" >> "$out"
     else
-      (cd harness && cp /repo/go.sum . && go build -tags verif -o /tmp/t6h . 2>/dev/null) || { echo "$id $prop harness-build-failed" >> "$out"; }
+      (cd $hs && cp $wt/go.sum . && go build -tags verif -o /tmp/t6h . 2>/dev/null) || { echo "$id $prop harness-build-failed" >> "$out"; }
       if [ -x /tmp/t6h ]; then
         timeout 600 /tmp/t6h -prop "$prop" -tier quick -seed 1 > /tmp/t6.out 2>/dev/null
         cut -f1 /tmp/t6.out > /tmp/t6.ops; cut -f2 /tmp/t6.out > /tmp/t6.go
@@ -28,8 +30,9 @@ for d in seeded/*/; do
       fi
     fi
   fi
-  git -C /repo checkout -- . && git -C /repo clean -fdq
+  git -C $wt checkout -- . && git -C $wt clean -fdq
 done
+git -C /repo worktree remove --force $wt; rm -rf $hs
 for t in gen_tables gen_limbs gen_asm gen_pins gen_effects gen_go; do .build/$t /repo lean/I3/Gen >/dev/null 2>&1; done
 (cd lean && lake build drivergen >/dev/null 2>&1)
 rm -f /tmp/t6.out /tmp/t6.ops /tmp/t6.go /tmp/t6.gen
